@@ -32,6 +32,18 @@ forced : in the -DC19_PLAIN build the harness defines rand() itself (glibc's is 
          std::rand answers: uniform_random() at the extreme answers 0, 1, RAND_MAX (contract u in [0, 1), theorem
          uniform_random_in_unit_interval) and the polar method on attempts with radius exactly 0, exactly 1, corners of the
          square (rejection logic, theorem polar_accepts_open_disc) - streams a seeded run meets with probability 2^-31 .. 2^-62.
+sched  : max_iteration = 0 selects SPE's automatic schedule (2000 + floor(0.04 N N) iterations in binary64, x 3 for the local
+         strategy), modelled in coq/Spe_Sched_Model.v (explicit round-to-nearest-even over Z) together with the divisor of the
+         annealing line; theorems spe_schedule_ok / lambda_schedule_every_max_iteration / lambda_schedule_automatic (lambda in
+         (0, 1], strictly decreasing, <= 1/2 at the end, for EVERY max_iteration).  Every SPE case is judged by the extracted
+         schedule_check on its observed number of shuffles; both strategies are run with max_iteration = 0 on N <= 30 with the
+         complete log (index specification, exact index replay, coordinate replay over all 2000 .. 6108 iterations, finiteness).
+wave 3 : keywords left UNSET must reproduce the call with the documented default set explicitly, calls from inside an
+         application's own `#pragma omp parallel` region (OMP_THREAD_LIMIT below the team size, nested on / off) must reproduce
+         the plain call bit for bit; data with a common offset up to 1e12 times the spread (RP, FA: bit-for-bit on the exact
+         stream); magnitudes whose squares overflow (outcome must be a matrix or an exception); special parameter values
+         (spe_num_updates 1 / clamp / above, spe_tolerance default / 1e-300 / denormal, fa_epsilon 0 / default / 1e6 / 1e150,
+         max_iteration 0 / 1 / default for FA).
 tests  : (labelled measured tests, not theorems) scale-optimal normalised stress of the global strategy
          over seeds, neighbour-distance error of the local strategy, first four moments and lag-1 product
          of the shipped polar-method Gaussian (build -DC19_PLAIN).
@@ -65,6 +77,14 @@ TRUSTED = [
     "output is the classical theorem about the polar method given uniform std::rand, NOT proved here (moments measured)",
     "plain build: the harness interposes rand() (forced answers for the boundary streams, glibc's rand via dlsym(RTLD_NEXT) otherwise)",
     "convergence of the stochastic iteration and the distribution of the Gaussian oracle are measured tests, not theorems",
+    "iteration schedule: `floor(0.04 * N * N)` is modelled by an explicit binary64 rounding function over Z (coq/Spe_Sched_Model.v: "
+    "53-bit mantissa, ties to even, no overflow / subnormal range needed); validated against Coq's primitive floats for N <= 2048 "
+    "(theorem sched_q_matches_primitive_floats: its Print Assumptions lists the kernel primitives PrimFloat.mul, of_uint63, "
+    "normfr_mantissa, frshiftexp, ltb, eqb, div, abs, float and PrimInt63.sub, lsr, lsl, lor, land, eqb, int - computed with, "
+    "no FloatAxioms) and against this platform's binary64 on every SPE case; lambda itself is not observable: the annealing is "
+    "tied through the binary64 coordinate replay of the complete run (all iterations of the automatic schedule, 1e-9)",
+    "documented keyword defaults (max_iteration 100, spe_num_updates 100, spe_tolerance 1e-9, spe_global_strategy true, "
+    "num_neighbors 5, neighbors_method CoverTree, fa_epsilon 1e-9) are transcribed from defines/keywords.hpp into the check",
 ]
 
 TOL = 1e-9
@@ -650,17 +670,18 @@ def gen_variants(rng, quick):
     n_unset, n_omp = (6, 2) if quick else (40, 12)
     for i in range(n_unset):
         glob = rng.random() < 0.5
-        N = rng.choice([8, 12, 16])
+        # the first group is large enough for the default spe_num_updates = 100 not to be clamped to N / 2
+        N = 208 if i == 0 else rng.choice([8, 12, 16])
         b = {"kind": "SPE", "id": "vu%d" % i, "N": N, "D": 2, "d": 2, "global": glob, "k": 5, "nupd": 100, "maxiter": 100,
              "tol": 1e-9, "srand": rng.randrange(1 << 30), "shseed": rng.randrange(1 << 30), "useed": rng.randrange(1 << 30),
              "umode": 0, "nbm": 2, "log": 0, "rkind": "identity"}
-        b["pool"] = gen_points(rng, N, 2, span=8, den=8, distinct=True)
+        b["pool"] = gen_points(rng, N, 2, span=64 if N > 100 else 8, den=8, distinct=True)
         b = norm_case(b)
         masks = [1, 2, 4, 16 | 32, 63 if glob else 63 - 8]
         if glob:
             masks.append(8)
         vs = []
-        for j, m in enumerate(rng.sample(masks, 3)):
+        for j, m in enumerate([2, 1, 63 if glob else 55] if i == 0 else rng.sample(masks, 3)):
             v = dict(b)
             v["id"], v["flags"] = "vu%d_%d" % (i, j), m
             vs.append(v)
@@ -895,10 +916,6 @@ def eval_spe(ctx, exe, mexe, cases, st):
         sb, mb, xb = spec_blocks[bi], mod_blocks[bi], maxl_blocks[bi]
         bi += 1
         N = c["N"]
-        # oracle contract of the hook: every `from` is a permutation
-        if any(sorted(f) != list(range(N)) for f in r["F"]):
-            ctx.mismatch(pc, "hook H1 reported a `from` that is not a permutation of 0..N-1")
-            continue
         if not sb or sb[0] != "SPEC ok":
             t = sb[0] if sb else "no answer"
             ctx.violation(pc, "index bookkeeping violates the specification (%s strategy; the distance callback of an "
@@ -907,6 +924,11 @@ def eval_spe(ctx, exe, mexe, cases, st):
                 "global" if c["global"] else "local", c.get("rkind"), c["range"][:12], t,
                 r["S"][int(t.split()[-1])] if t.startswith("SPEC fail") else "?",
                 r["P"][int(t.split()[-1])] if t.startswith("SPEC fail") else "?"))
+            continue
+        # oracle contract of the hook (after the specification has been applied to the implementation's own log: an array
+        # that is only partly reshuffled fails the specification, not merely the oracle contract): every `from` is a permutation
+        if any(sorted(f) != list(range(N)) for f in r["F"]):
+            ctx.mismatch(pc, "hook H1 reported a `from` that is not a permutation of 0..N-1")
             continue
         # every neighbour can be drawn: the largest draw must select the last neighbour, the smallest the first
         if not c["global"] and c["umode"] in (1, 2) and k >= 1:
@@ -1585,7 +1607,8 @@ def judge_measured(ctx, st):
         if nan or not med <= 1e-3 or frac_bad > 0.15:
             ctx.violation({"kind": "MEASURED", "what": "global_stress", "values": gs[-5:]},
                           "MEASURED TEST: global SPE does not drive the scale-optimal normalised stress to near zero on "
-                          "isometrically embeddable data (median %.3g, %.0f%% of runs above 0.01, 2000 iterations)" % (med, 100 * frac_bad))
+                          "isometrically embeddable data (median %.3g, %.0f%% of runs above 0.01; max_iteration = 2000 or 0 = the automatic "
+                          "schedule of 2000 + floor(0.04 N N) iterations)" % (med, 100 * frac_bad))
     le = sorted(st.measured["local_neighbour_error"])
     if le:
         med = le[len(le) // 2]
@@ -1738,7 +1761,12 @@ def run(ctx):
              "data set, permuted, subset in random order, offset ids, sparse ids, repeated ids (histogram range/*); all models are fed "
              "the samples DESIGNATED by the range.  FA trajectory replays: fa_epsilon = 0 and > 0, 0..3 rounds (exact rationals).  "
              "Polar replay: every entry of gaussian_projection_matrix from the logged std::rand answers.  "
-             "Measured tests (not theorems): stress / neighbour error over seeds, moments of the shipped Gaussian.",
+             "Measured tests (not theorems): stress / neighbour error over seeds (half of the runs with max_iteration = 0, the "
+             "automatic schedule), moments of the shipped Gaussian.  Wave 3: SPE with max_iteration = 0 fully logged (both "
+             "strategies, N <= 30, spe_num_updates 1 / N/2 / above, spe_tolerance 1e-9 .. denormal), schedule_check on every SPE "
+             "case, N = 205 count recorded; keyword-unset vs explicit-default and inside-omp-parallel-region variants (bit-for-bit); "
+             "RP / FA translation pairs with a common offset 2^20 .. 2^43 (exact) or 1e6 .. 1e12 (tolerance, RP); magnitudes 2^520 .. "
+             "1.9e307 (outcome only); FA special values on the exact stream.",
         samples=st.samples, histogram=st.hist, trusted_base=TRUSTED,
         assumptions=["finite input coordinates; data not all coincident for the global strategy (max distance 0 gives alpha = inf and NaN output: boundary, recorded in the notes)",
                      "spe_tolerance > 0, spe_num_updates >= 1, 3 <= k < N, 1 <= target_dimension < N (the library's own validation)",
